@@ -21,6 +21,43 @@ def orders(chk):
     return I.load_layout_tables(chk)
 
 
+def class_chain(chk, rel, cls):
+    """the class and its base classes defined in the same module, most derived first"""
+    mod = chk.mod(rel)
+    out, seen = [], set()
+    todo = [cls]
+    while todo:
+        c = todo.pop(0)
+        if c in seen or not mod.has(c):
+            continue
+        seen.add(c)
+        node = mod.cls(c)
+        out.append(node)
+        todo += [b.id for b in node.bases if isinstance(b, ast.Name)]
+    return out
+
+
+def method_table(chk, rel, cls):
+    """{method name: (defining class name, FunctionDef)} as seen from an instance of `cls` (overrides win)"""
+    out = {}
+    for node in class_chain(chk, rel, cls):
+        for st in node.body:
+            if isinstance(st, ast.FunctionDef):
+                out.setdefault(st.name, (node.name, st))
+    return out
+
+
+def resolve_method(chk, rel, cls, name):
+    """(qualified name of the definition, FunctionDef) of `cls.name`, inherited definitions included"""
+    t = method_table(chk, rel, cls)
+    if name not in t:
+        raise AnalysisError(f"anchor vanished: {rel}:{cls}.{name} (not defined in the class nor in a base class of the module)")
+    owner, fn = t[name]
+    chk.functions.add(f"{rel}:{owner}.{name}")
+    chk.units.add(rel)
+    return f"{owner}.{name}", fn
+
+
 # ------------------------------------------------------------------ operators
 def parallel_gradient(chk):
     """ParallelGradient: tables built in __init__, looked up in parallel_gradient(phi_r, i, der)"""
@@ -37,6 +74,8 @@ def flux_surface(chk):
     summ, _ = I.summary_of(chk, U.ADV, "FluxSurfaceAdvection", "step", dict(attrs), Ctx(dist_dims={0, 3}))
     req = summ["req"]
     ok = req.get("cIdx") == ("lidx", 3) and req.get("rIdx") == ("lidx", 0)
+    if not ok and (req.get("cIdx") is None or req.get("rIdx") is None):
+        ok = None        # the look-ups of step were not followed: nothing is known about the roles
     chk.ob("C-table-roles", chk.func(U.ADV, "FluxSurfaceAdvection.step"), "step(f, cIdx, rIdx)", ok,
            "the shift/coefficient tables are [local r, local v, stencil]; cIdx is the local v index, rIdx the local r index"
            if ok else f"unexpected index requirements of step: { {k: tname(v) for k, v in req.items()} } "
@@ -62,7 +101,7 @@ def v_parallel(chk, pg_summ):
         if isinstance(n, ast.Assign) and isinstance(n.targets[0], ast.Name) and n.targets[0].id == "parGradVals":
             a = IS(chk, U.DRIVER, "main", dfn, {"distribFunc": grid_param(o_grid, 2), "constants": ("constants",)}, ctx, {})
             pgv = a.ev(n.value)
-            okw = I.is_arr(pgv) and pgv[1] == (L(0), G(2), G(1))
+            okw = (pgv[1] == (L(0), G(2), G(1))) if I.is_arr(pgv) and all(w is not None and w[0] in ("G", "L") for w in pgv[1]) else None
             chk.ob("C-table-roles", n, "parGradVals = np.empty([...])", okw,
                    "parallel-gradient table is [local r, global z, global theta]" if okw else
                    f"unexpected table signature {tname(pgv)}", file=U.DRIVER, func="main")
@@ -136,6 +175,21 @@ def radius_argument(chk, analyses):
                        "the radius handed to the boundary rule is the r coordinate of the line being advanced" if ok else
                        f"the value handed to the step as radius is {tname(t) if t else 'unknown'}", file=U.ADV, func=f"VParallelAdvection.{m}")
         if n == 0:
+            # the advection loop may live in a sibling grid-level method that this one calls with the grid it received
+            # (e.g. gridStep = "all gradients first" + gridStepKeepGradient): the sibling's own obligation covers it
+            deleg = [c for c in ast.walk(fn) if isinstance(c, ast.Call) and isinstance(c.func, ast.Attribute)
+                     and src(c.func.value) == "self" and c.func.attr in analyses and c.func.attr != m
+                     and any(isinstance(x, ast.Name) and x.id == "grid" for x in list(c.args) + [k.value for k in c.keywords])]
+            if deleg:
+                callee = analyses[deleg[0].func.attr].fn
+                formals = [x.arg for x in callee.args.args if x.arg != "self"]
+                b = agree.bind_call(deleg[0], formals) or {}
+                same = set(b) == set(formals) and all(isinstance(v, ast.Name) and v.id == f for f, v in b.items())
+                chk.ob("C-coordinate-role", deleg[0], f"{m} advects through self.{deleg[0].func.attr}(grid, ...)", True if same else None,
+                       f"the lines are advanced by `{deleg[0].func.attr}` on the same grid, table and time step; its own step call is typed"
+                       if same else f"`{src(deleg[0])}` does not hand its own grid/table/time step on under the same names: cannot decide",
+                       file=U.ADV, func=f"VParallelAdvection.{m}")
+                continue
             raise AnalysisError(f"C05: no self.step call in VParallelAdvection.{m}")
 
 
@@ -167,9 +221,12 @@ def poloidal(chk):
         env2 = {"grid": grid_param(o, 2), "dt": OTHER}
         if m == "gridStep":
             op = amb.get("phi")
-            chk.ob("C-layout-relation", fn, "phi layout = grid layout[1:]", op == o[1:],
-                   "the potential is required in the grid's layout without v" if op == o[1:] else
-                   "relation between the layouts of grid and phi is no longer asserted", file=U.ADV, func=f"PoloidalAdvection.{m}")
+            rel_ok = True if op == o[1:] else (False if op is not None else None)
+            chk.ob("C-layout-relation", fn, "phi layout = grid layout[1:]", rel_ok,
+                   "the potential is required in the grid's layout without v" if rel_ok else
+                   (f"the potential is required in layout {op}, which is not the grid's layout {o} without its first dimension: slice j of "
+                    "phi is not the plane of slice (i, j) of the grid" if op is not None else
+                    "relation between the layouts of grid and phi is no longer asserted"), file=U.ADV, func=f"PoloidalAdvection.{m}")
             env2["phi"] = grid_param(op or o[1:], 1)
         ctx = Ctx(dist_dims=dist_dims(o, 2))
         an = I.run_method(chk, U.ADV, "PoloidalAdvection", m, env2, ctx, dict(attrs),
@@ -177,21 +234,44 @@ def poloidal(chk):
         for n_ in ast.walk(fn):
             if isinstance(n_, ast.Subscript) and src(n_.value) == "self._phiSplines":
                 cache_tags.setdefault(m, []).append((n_, an.node_tags.get(id(n_.slice))))
-        # v handed to step is the coordinate of the slice's own v (getCoords(0) in (3,2,1,0))
-        for lp in [n for n in ast.walk(fn) if isinstance(n, ast.For) and src(n.iter) == "grid.getCoords(0)"]:
-            vname = lp.target.elts[1].id if isinstance(lp.target, ast.Tuple) and isinstance(lp.target.elts[1], ast.Name) else None
-            for c in ast.walk(lp):
-                if isinstance(c, ast.Call) and isinstance(c.func, ast.Attribute) and c.func.attr == "step" and src(c.func.value) == "self":
-                    b = agree.bind_call(c, ["f", "dt", "phi", "v"]) or {}
-                    okv = isinstance(b.get("v"), ast.Name) and b["v"].id == vname and o[0] == 3
-                    # the phi spline index equals the z selector of the slice
-                    f_ = b.get("f")
-                    ph = b.get("phi")
-                    zsel = src(f_.args[1]) if isinstance(f_, ast.Call) and len(f_.args) == 2 else None
-                    okz = isinstance(ph, ast.Subscript) and src(ph.value) == "self._phiSplines" and src(ph.slice) == zsel
-                    chk.ob("C-coordinate-role", c, f"step(slice(i, j), dt, phiSplines[j], v) in {m}", okv and okz,
-                           "the velocity is the slice's own v coordinate and the potential spline is the one of the slice's own z plane"
-                           if okv and okz else f"velocity ok={okv}, potential plane ok={okz}", file=U.ADV, func=f"PoloidalAdvection.{m}")
+        # the v handed to step is the coordinate of the slice's own v; the potential spline is the one of the slice's own z plane
+        nstep = 0
+        for c in ast.walk(fn):
+            if not (isinstance(c, ast.Call) and isinstance(c.func, ast.Attribute) and c.func.attr == "step" and src(c.func.value) == "self"):
+                continue
+            nstep += 1
+            b = agree.bind_call(c, ["f", "dt", "phi", "v"]) or {}
+            vt = an.node_tags.get(id(b["v"])) if "v" in b else None
+            problems, bad = [], []
+            if vt == ("coord", 3):
+                pass
+            elif isinstance(vt, tuple) and vt[0] == "coord":
+                bad.append(f"the velocity handed to step is {tname(vt)}, not the v coordinate of the slice")
+            else:
+                problems.append(f"velocity argument `{src(b['v']) if 'v' in b else '?'}` is {tname(vt) if vt else 'not typed'}")
+            f_, ph = b.get("f"), b.get("phi")
+            zpos = list(o).index(2) if 2 in o else None
+            zsel = f_.args[zpos] if isinstance(f_, ast.Call) and isinstance(f_.func, ast.Attribute) and f_.func.attr == "get2DSlice" \
+                and src(f_.func.value) == "grid" and zpos is not None and zpos < len(f_.args) else None
+            if not (isinstance(ph, ast.Subscript) and src(ph.value) == "self._phiSplines") or zsel is None:
+                problems.append(f"slice `{src(f_) if f_ is not None else '?'}` / potential `{src(ph) if ph is not None else '?'}` not recognised")
+            else:
+                pt, zt = an.node_tags.get(id(ph.slice)), an.node_tags.get(id(zsel))
+                if not (isinstance(pt, tuple) and pt[0] in ("lidx", "gidx")) or not (isinstance(zt, tuple) and zt[0] in ("lidx", "gidx")):
+                    problems.append(f"index spaces of `{src(ph)}` ({tname(pt) if pt else '?'}) and of the z selector `{src(zsel)}` "
+                                    f"({tname(zt) if zt else '?'}) not determined")
+                elif pt[1] != 2:
+                    bad.append(f"the potential spline is selected by `{src(ph.slice)}`, an index along {I.DIMNAMES.get(pt[1], pt[1])}, while the "
+                               f"slice is the z plane `{src(zsel)}`: planes are advected with the potential of another plane")
+                elif src(ph.slice) != src(zsel) and _binding_loop(c, ph.slice) is not _binding_loop(c, zsel):
+                    problems.append(f"`{src(ph.slice)}` and `{src(zsel)}` are not bound by the same loop: same plane not established")
+            okc = False if bad else (None if problems else True)
+            chk.ob("C-coordinate-role", c, f"step(slice(i, j), dt, phiSplines[j], v) in {m}", okc,
+                   "the velocity is the slice's own v coordinate and the potential spline is the one of the slice's own z plane"
+                   if okc else "; ".join(bad + problems), file=U.ADV, func=f"PoloidalAdvection.{m}")
+        if nstep == 0:
+            chk.ob("C-coordinate-role", fn, f"self.step(...) in {m}", None, "no call of self.step found (idiom changed)", file=U.ADV,
+                   func=f"PoloidalAdvection.{m}")
     # writer (gridStep) and reader (gridStep_SplinesUnchanged) of the cache use the same index space
     tags = {(m, I.tname(t) if t else "?") for m, lst in cache_tags.items() for _, t in lst}
     kinds = {t for _, t in tags}
@@ -209,17 +289,61 @@ def poloidal(chk):
     return attrs
 
 
+def _binding_loop(at, expr):
+    """innermost loop around `at` whose target binds a name of `expr` (None when there is none)"""
+    names = {n.id for n in ast.walk(expr) if isinstance(n, ast.Name)}
+    p_ = parent(at)
+    while p_ is not None and not isinstance(p_, (ast.FunctionDef, ast.ClassDef)):
+        if isinstance(p_, ast.For) and names & {n.id for n in ast.walk(p_.target) if isinstance(n, ast.Name)}:
+            return p_
+        p_ = parent(p_)
+    return None
+
+
+def range_slices_as_index(fn):
+    """private copy of `fn` in which `A[R.start:R.stop]`, with R a local bound once to `<grid>.getGlobalIdxVals(k)` (the contiguous
+    range of global indices of the local block), is written `A[R]`: selecting with the bounds of a unit-step range selects the
+    same rows as indexing with the range itself, which is the form engine C types"""
+    import copy
+    defs = {}
+    for n in ast.walk(fn):
+        if isinstance(n, ast.Name) and isinstance(n.ctx, ast.Store):
+            defs[n.id] = defs.get(n.id, 0) + 1
+    ranges = {st.targets[0].id for st in ast.walk(fn) if isinstance(st, ast.Assign) and len(st.targets) == 1 and isinstance(st.targets[0], ast.Name)
+              and defs.get(st.targets[0].id) == 1 and isinstance(st.value, ast.Call) and isinstance(st.value.func, ast.Attribute)
+              and st.value.func.attr == "getGlobalIdxVals"}
+
+    def hit(n):
+        return isinstance(n, ast.Subscript) and isinstance(n.slice, ast.Slice) and n.slice.step is None \
+            and isinstance(n.slice.lower, ast.Attribute) and isinstance(n.slice.upper, ast.Attribute) \
+            and n.slice.lower.attr == "start" and n.slice.upper.attr == "stop" and isinstance(n.slice.lower.value, ast.Name) \
+            and isinstance(n.slice.upper.value, ast.Name) and n.slice.lower.value.id == n.slice.upper.value.id and n.slice.lower.value.id in ranges
+    if not any(hit(n) for n in ast.walk(fn)):
+        return fn
+    par = parent(fn)
+    new = copy.deepcopy(fn, {id(par): par} if par is not None else {})
+    for n in ast.walk(new):
+        if hit(n):
+            n.slice = ast.copy_location(ast.Name(id=n.slice.lower.value.id, ctx=ast.Load()), n.slice)
+    for n in ast.walk(new):
+        for ch in ast.iter_child_nodes(n):
+            ch._parent = n
+    new._parent = par
+    return new
+
+
 def density(chk):
     env = {"eta_grid": eta_grid_tag(), "constants": ("constants",), "degree": OTHER, "bspline": OTHER}
     attrs, _ = I.ctor_attrs(chk, U.POISSON, "DensityFinder", env)
     fe = attrs.get("_fEq")
-    ok = I.is_arr(fe) and fe[1] == (G(0), G(3))
+    ok = (fe[1] == (G(0), G(3))) if I.is_arr(fe) else None
     chk.ob("C-table-roles", chk.func(U.POISSON, "DensityFinder.__init__"), "self._fEq", ok,
            "equilibrium table is [global r, global v]" if ok else f"unexpected table {tname(fe)}", file=U.POISSON,
            func="DensityFinder.__init__")
     res = {}
     for m in ("getPerturbedRho", "getRho"):
         fn = chk.func(U.POISSON, f"DensityFinder.{m}")
+        fn = range_slices_as_index(fn)
         amb = I.ambient_from_asserts(fn)
         og, orho = amb.get("grid"), amb.get("rho")
         if og is None or orho is None:
@@ -295,22 +419,27 @@ def solver(chk):
     attrs, _ = I.ctor_attrs(chk, U.POISSON, "DiffEqSolver", env)
     for k in ("_mVals", "_coeff_range", "_stiffness_range"):
         t = attrs.get(k)
-        ok = I.is_arr(t) and t[1] and t[1][0] == G(1)
+        ok = (t[1][0] == G(1)) if I.is_arr(t) and t[1] and t[1][0] is not None and t[1][0][0] in ("G", "L") else None
         chk.ob("C-table-roles", chk.func(U.POISSON, "DiffEqSolver.__init__"), f"self.{k}", ok,
                "per-mode table covers all poloidal modes (global mode index)" if ok else f"unexpected table {tname(t)}",
                file=U.POISSON, func="DiffEqSolver.__init__")
     sm, _ = I.summary_of(chk, U.POISSON, "DiffEqSolver", "_solveMode", dict(attrs), ctx,
                          {"phi": grid_param(o_ms, 2), "rho": grid_param(o_ms, 2)})
     ok = sm["req"].get("i") == ("lidx", 1) and sm["req"].get("I") == ("gidx", 1)
+    if not ok and (sm["req"].get("i") is None or sm["req"].get("I") is None):
+        ok = None
     chk.ob("C-table-roles", chk.func(U.POISSON, "DiffEqSolver._solveMode"), "_solveMode(phi, rho, stiffnessMatrix, i, I)", ok,
            "i selects the local data slice, I looks up the global-mode tables" if ok else
            f"unexpected index requirements { {k: tname(v) for k, v in sm['req'].items()} }", file=U.POISSON, func="DiffEqSolver._solveMode")
     smf, _ = I.summary_of(chk, U.POISSON, "DiffEqSolver", "_solveModeFunc", dict(attrs), ctx, {"phi": grid_param(o_ms, 2), "rho": OTHER})
     for cls, m in (("DiffEqSolver", "solveEquation"), ("DiffEqSolver", "solveEquationForFunction"),
                    ("QuasiNeutralitySolver", "solveEquation")):
-        fn = chk.func(U.POISSON, f"{cls}.{m}")
+        # an inherited definition is analysed as the derived class runs it: template methods it calls resolve to the overrides
+        owner_q, fn = resolve_method(chk, U.POISSON, cls, m)
+        summ = {"_solveMode": sm, "_solveModeFunc": smf}
         a = IS(chk, U.POISSON, f"{cls}.{m}", fn, {"phi": grid_param(o_ms, 2), "rho": grid_param(o_ms, 2) if m != "solveEquationForFunction" else OTHER},
-               ctx, dict(attrs), {"_solveMode": sm, "_solveModeFunc": smf})
+               ctx, dict(attrs), summ)
+        a.methods = {k: v[1] for k, v in method_table(chk, U.POISSON, cls).items() if k not in summ and v[1] is not fn}
         chk.functions.add(f"{U.POISSON}:{cls}.{m}")
         a.run()
     for m in ("getModes", "findPotential"):
@@ -404,7 +533,7 @@ def callee_requirements(chk):
         amb = I.ambient_from_asserts(chk.func(rel, q))
         req[q.split(".")[-1]] = {p: amb.get(p) for p in params}
     for q in ("DiffEqSolver.solveEquation", "QuasiNeutralitySolver.solveEquation"):
-        amb = I.ambient_from_asserts(chk.func(U.POISSON, q))
+        amb = I.ambient_from_asserts(resolve_method(chk, U.POISSON, *q.split("."))[1])
         req.setdefault("solveEquation", {})["rho[-1]"] = amb.get("rho[-1]")
     return req
 
@@ -529,9 +658,14 @@ def check_operator_call(chk, c, recv, m, state, req, order_of):
             if g:
                 cur = state.get(g, {}).get("cur")
                 nd = I.LAYOUT_NDIST.get(cur)
-                chk.ob("S-operator-layout", c, label + " [z lines complete]", cur == "v_parallel_1d",
-                       "the potential is in the r-distributed layout with complete (z,theta) planes" if cur == "v_parallel_1d" else
-                       f"the potential is in layout `{cur}`", file=U.DRIVER, func="main")
+                og = order_of(g, cur)
+                zfree = (2 not in og[:nd]) if og is not None and nd is not None else None
+                chk.ob("S-operator-layout", c, label + " [z lines complete]", zfree,
+                       f"the potential is in layout `{cur}` = {og}, distributed along {[I.DIMNAMES.get(d, d) for d in og[:nd]]}: every process "
+                       "holds complete z lines" if zfree else
+                       (f"the potential is in layout `{cur}` = {og}, in which z is distributed: the parallel gradient needs the whole periodic z "
+                        "line of each (r, theta)" if zfree is False else f"layout `{cur}` of the potential is not one of the known layouts"),
+                       file=U.DRIVER, func="main")
     elif cls == "DensityFinder":
         amb = I.ambient_from_asserts(chk.func(U.POISSON, f"DensityFinder.{m}"))
         wanted = {0: amb.get("grid"), 1: amb.get("rho")}
@@ -540,14 +674,16 @@ def check_operator_call(chk, c, recv, m, state, req, order_of):
             amb = I.ambient_from_asserts(chk.func(U.POISSON, f"DiffEqSolver.{m}"))
             wanted = {0: amb.get("rho" if m == "getModes" else "phi")}
         elif m == "solveEquation":
-            last = I.ambient_from_asserts(chk.func(U.POISSON, "QuasiNeutralitySolver.solveEquation")).get("rho[-1]")
+            last = I.ambient_from_asserts(resolve_method(chk, U.POISSON, "QuasiNeutralitySolver", "solveEquation")[1]).get("rho[-1]")
             for k, a in enumerate(c.args):
                 if isinstance(a, ast.Name) and a.id in state:
                     o = order_of(a.id, state[a.id]["cur"])
-                    ok = o is not None and last is not None and o[-1] == last
+                    ok = (o[-1] == last) if o is not None and last is not None else None
                     chk.ob("S-operator-layout", c, label + f" [{a.id}]", ok,
                            f"`{a.id}` is in layout `{state[a.id]['cur']}` whose last (contiguous) dimension is r" if ok else
-                           f"`{a.id}` is in layout `{state[a.id]['cur']}` = {o}, the solver needs r last", file=U.DRIVER, func="main")
+                           (f"`{a.id}` is in layout `{state[a.id]['cur']}` = {o}, the solver needs r last" if ok is False else
+                            f"layout of `{a.id}` ({state[a.id]['cur']} = {o}) or the solver's requirement on the last dimension ({last}) not "
+                            "determined"), file=U.DRIVER, func="main")
             # both grids in the same layout: the solver loops over rho's modes and writes phi's slices
             if len(c.args) >= 2 and all(isinstance(a, ast.Name) and a.id in state for a in c.args[:2]):
                 same = state[c.args[0].id]["cur"] == state[c.args[1].id]["cur"]
@@ -600,10 +736,15 @@ def run(chk):
     poloidal(chk)
     density(chk)
     solver(chk)
-    from .C14 import per_mode
-    per_mode(chk)
     initialisers(chk)
     driver_typestate(chk)
+    from .C14 import per_mode
+    try:
+        per_mode(chk)
+    except AnalysisError as e:
+        # the per-mode rules (C14) cannot follow the solver: undecided here, the other sections keep their verdicts
+        chk.ob("F4-mode-solve", chk.mod(U.POISSON).tree, "per-mode solver rules (C14.per_mode)", None, f"not analysable: {e}",
+               file=U.POISSON, func="DiffEqSolver")
     # the z stencil of the parallel gradient wraps periodically over ALL z rows whatever block the caller owns: the three index
     # regimes tile [0, nz) (shared with C13)
     from .C13 import regimes as _regimes
